@@ -152,9 +152,9 @@ Scenario gen_c17(uint64_t seed) {
 	static const char *dirs[] = {"", "", "src/", "../x/", "/abs/", "src.d/", "../v1.2/", "./", "./-", "a b/", "x,y/", "k=v/"};
 	for (int i = 0; i < ninputs; i++) {
 		int ty;
-		do ty = (int)r.below(NTY); while (mode == LINK && ty == TY_H);
+		ty = (int)r.below(NTY);  // including inputs that take no part in this mode (a header when linking): they must be ignored altogether
 		std::string base = std::string(dirs[r.below(r.coin(1, 6) ? 12 : 8)]) + (r.coin(1, 12) ? "." : "") + "f" + std::to_string(i) + (r.coin(1, 6) ? ".x" : "");
-		if (r.coin(1, 8) && TYPES[ty].xlang && !(mode == LINK && ty == TY_H)) {
+		if (r.coin(1, 8) && TYPES[ty].xlang) {
 			// forced language, arbitrary or missing suffix, or standard input
 			inseq.push_back(opt_val(r, "-x", TYPES[ty].xlang));
 			xactive = true;
@@ -209,7 +209,7 @@ Scenario gen_c17(uint64_t seed) {
 			if (r.coin(1, 2)) opts.push_back({"-D", "DETACHED"});
 			break;
 		}
-		case 7: { static const char *bad[] = {"-cfoo", "-Ex", "-Sx", "-sx", "-vv", "-shared", "-static-pie", "-save-temps", "-sysroot", "-c99", "-Eh", "-verbose", "-Shared"}; opts.push_back({bad[r.below(13)]}); break; }
+		case 7: { static const char *bad[] = {"-cfoo", "-Ex", "-Sx", "-sx", "-vv", "-shared", "-static-pie", "-save-temps", "-sysroot", "-c99", "-Eh", "-verbose", "-Shared", "-Pfoo", "-Pipe", "-PP"}; opts.push_back({bad[r.below(16)]}); break; }
 		case 8: opts.push_back({r.coin(1, 2) ? "-MFfile" : "-MQ"}); break;
 		case 9: opts.push_back({"-includefoo.h"}); break;
 		case 10: opts.push_back({r.coin(1, 2) ? "-nostdfoo" : "-pthreads"}); break;
